@@ -284,7 +284,7 @@ def check_lazy_equivalence(prog, ctx):
     from engine.parallel import pmap
 
     tier = ctx.tier
-    syms = ("Z2", "U1") if tier == "quick" else ("Z2", "U1", "Z2Z2", "U1U1", "Z4")
+    syms = ("Z2", "U1") if tier == "quick" else ("Z2", "U1", "Z2Z2")  # pending signs do not depend on the group beyond parity
     cases = []
     for sp in specs(tier, syms=syms, ranks=(1, 2, 3, 4), fermionic=(True,)):
         nd = sp.ndim
